@@ -1,0 +1,19 @@
+//! Verification hooks, only compiled with `--cfg capy_verif`.
+//!
+//! A logical step counter: one step per token lookup of the parser.
+
+use std::cell::Cell;
+
+thread_local! {
+    static STEPS: Cell<u64> = const { Cell::new(0) };
+}
+
+#[inline]
+pub(crate) fn step() {
+    STEPS.with(|s| s.set(s.get() + 1));
+}
+
+/// Returns the number of steps since the last call and resets the counter
+pub fn take_steps() -> u64 {
+    STEPS.with(|s| s.replace(0))
+}
